@@ -88,6 +88,15 @@ def innermost_repo_frame(exc: BaseException) -> str | None:
     return None
 
 
+def _innermost_repo_frame_of(frame: Any) -> str:
+    while frame is not None:
+        fn = frame.f_code.co_filename
+        if fn.startswith(REPO_SRC):
+            return f'{os.path.relpath(fn, REPO_SRC)}:{frame.f_code.co_name}'
+        frame = frame.f_back
+    return 'outside-exabgp'
+
+
 def innermost_frame_is_repo(exc: BaseException) -> bool:
     tb = traceback.extract_tb(exc.__traceback__)
     if not tb:
@@ -183,8 +192,23 @@ def run_case(engine: Engine, case: Any, res: ShardResult, known: list[dict], exc
     res.evaluations += 1
     if engine.reset:
         engine.reset()
+    limit = getattr(engine, 'case_timeout', None)
     try:
-        info = engine.check(case)
+        if limit:
+            # a safety net, not an oracle of speed: a case that normally takes milliseconds and has not returned after `limit`
+            # seconds is stuck in a loop (the alternative is a check that never ends and reports nothing)
+            import signal
+
+            def _stuck(signum, frame):
+                raise Violation(f'stuck:no-return-within-{limit}s', 'the call did not return; innermost exabgp frame: ' + _innermost_repo_frame_of(frame))
+
+            signal.signal(signal.SIGALRM, _stuck)
+            signal.alarm(int(limit))
+        try:
+            info = engine.check(case)
+        finally:
+            if limit:
+                signal.alarm(0)
     except Violation as v:
         for entry in known:
             if sig_matches(entry, v.signature):
